@@ -1,18 +1,18 @@
 """C15  Styles and borders applied through the API read back equal, now and after reload."""
 import warnings
 
-from hypothesis import strategies as st
+from hypothesis import Phase, strategies as st
 from hypothesis.stateful import RuleBasedStateMachine, rule
 
 from vf import snapshot
-from vf.core import derive_seed, run_machine
+from vf.core import derive_seed, run_given, run_machine
 from vf.hist import Exec, _Abort
 
 ID = "C15"
 RULE = (
     "Style histories: add_style with all 15 attributes over documented domains (font family from the library's family table, "
     "sizes/indents/inset as float32-representable floats 0.25..144, RGB 0..255^3, 5x3 alignments, bools, background colour or "
-    "image with distinct file names); 1..6 styles applied to cells by object and by name; cells restyled; later attribute "
+    "image with distinct file names; one style in four sets character attributes only); 1..6 styles applied to cells by object and by name; cells restyled, in histories and in a pair lane (a cell saved with style A is given style B on the same or the reopened handle and saved again); later attribute "
     "edits of an applied style; read-only access (style, border) of arbitrary cells before saving; save+reopen at any point "
     "continuing on either handle. Border histories: stroke sequences on 3..8 x 3..8 tables (side, start cell, length 1..n, width "
     "with <=2 decimals, colour, solid/dashes/dots/none) including overlapping, abutting, contained and superseding strokes, "
@@ -148,6 +148,11 @@ class StyleExec(Exec):
 
     def op_apply(self, row, col, idx, by_name):
         style = self.styles[idx]
+        if (row, col) in self.cellstyle and self.cellstyle[(row, col)] is not self.smodel[idx]:
+            self.flags.add("restyled_cell_after_save" if self.nsaves else "restyled_cell")
+        # by name only while the style still has the name it was added under: Document.styles lists a style under that name, and
+        # what a name assigned later resolves to is not part of this property (the library refuses it with IndexError)
+        by_name = by_name and idx not in getattr(self, "renamed", ())
         self.table.set_cell_style(row, col, self.smodel[idx]["name"] if by_name else style)
         self.cellstyle[(row, col)] = self.smodel[idx]
         if hasattr(self, "named_cells"):
@@ -183,6 +188,8 @@ class StyleExec(Exec):
         else:
             self.smodel[idx][attr] = value
         setattr(style, attr, v)
+        if attr == "name":
+            self.renamed = getattr(self, "renamed", set()) | {idx}
         self.flags.add("edited_style")
         self.check_view(self.table, "edit")
 
@@ -226,6 +233,7 @@ class StyleExec(Exec):
             self.cellstyle = {rc: dict(m) for rc, m in self.cellstyle.items()}
             self.frozen_names = getattr(self, "frozen_names", set()) | {m["name"] for m in self.smodel}
             self.styles, self.smodel = [], []
+            self.renamed = set()
             self.flags.add("continued_on_reopened")
 
     def finish(self):
@@ -247,10 +255,13 @@ def style_specs(draw, fams, n):
     spec = {"name": f"VS {n}" if draw(st.booleans()) else draw(st.sampled_from(["Émphasis", "x y z", "Heading", "Red Text"])) + f" {n}"}
     if draw(st.integers(0, 3)) == 0:
         del spec["name"]
-    opt = lambda: draw(st.booleans())
-    if opt():
+    # one style in four sets character attributes only: everything the cell itself carries (fill, alignment, indents, inset, wrap)
+    # is left at its default, which is what replacing the style of an already styled cell must then show
+    text_only = draw(st.integers(0, 3)) == 0
+    opt = lambda cell_level=False: draw(st.booleans()) and not (cell_level and text_only)
+    if opt(True):
         spec["alignment"] = draw(aligns)
-    if opt():
+    if opt(True):
         if draw(st.integers(0, 3)) == 0:
             data = bytes([137, 80, 78, 71, 13, 10, 26, 10]) + draw(st.binary(min_size=4, max_size=40))
             spec["bg_image"] = [f"img{n}_{draw(st.integers(0, 10**6))}.png", data.hex()]
@@ -265,10 +276,10 @@ def style_specs(draw, fams, n):
     if opt():
         spec["font_name"] = draw(st.sampled_from(fams))
     for a in ("bold", "italic", "strikethrough", "underline", "text_wrap"):
-        if opt():
+        if opt(a == "text_wrap"):
             spec[a] = draw(st.booleans())
     for a in ("first_indent", "left_indent", "right_indent", "text_inset"):
-        if opt():
+        if opt(True):
             spec[a] = draw(f32)
     return spec
 
@@ -318,6 +329,15 @@ def make_style_machine(ctx):
             t = self.ex.table
             self.step("apply", row=data.draw(st.integers(0, t.num_rows - 1)), col=data.draw(st.integers(0, t.num_cols - 1)),
                       idx=data.draw(st.integers(0, len(self.ex.styles) - 1)), by_name=by_name)
+
+        @rule(data=st.data(), by_name=st.booleans())
+        def restyle(self, data, by_name):
+            """another style for a cell that already carries one (possibly one it was saved with)"""
+            self.ensure(data)
+            if self.dead or not self.ex.styles or not self.ex.cellstyle:
+                return
+            row, col = data.draw(st.sampled_from(sorted(self.ex.cellstyle)))
+            self.step("apply", row=row, col=col, idx=data.draw(st.integers(0, len(self.ex.styles) - 1)), by_name=by_name)
 
         @rule(data=st.data())
         def apply_saved_name(self, data):
@@ -777,6 +797,46 @@ def adjacent_pairs(ctx):
             ex.close()
 
 
+def restyle_pairs(ctx, n, seed_):
+    """A cell saved with one style is given another one - on the same handle or on the reopened one - and saved again: the cell must
+    then show the second style in full, including everything the second style leaves at its default."""
+    fams = families()
+    strat = st.tuples(style_specs(fams, 0), style_specs(fams, 1), st.booleans(), st.booleans())
+
+    def body(t):
+        a, b, switch, early = t
+        if a.get("name") is not None and a.get("name") == b.get("name"):
+            return
+        for sp in (a, b):
+            if isinstance(sp.get("bg_color"), list) and sp["bg_color"] and isinstance(sp["bg_color"][0], list):
+                del sp["bg_color"]   # gradients cannot be saved (known finding of the histories lane)
+        if "bg_image" in a and "bg_image" in b and a["bg_image"][0] == b["bg_image"][0]:
+            b["bg_image"][0] = "second_" + b["bg_image"][0]
+        ex = StyleExec(ctx)
+        try:
+            ex.apply("new", rows=3, cols=3)
+            ex.apply("add_style", spec=a)
+            if early:
+                ex.apply("add_style", spec=b)   # the second style exists before the first save
+            ex.apply("apply", row=1, col=1, idx=0, by_name=False)
+            ex.apply("apply", row=2, col=1, idx=0, by_name=False)
+            ex.apply("reopen", switch=switch and not early)
+            if not early:
+                ex.apply("add_style", spec=b)
+            ex.apply("apply", row=1, col=1, idx=len(ex.styles) - 1, by_name=False)
+            ex.apply("reopen", switch=False)
+            ex.finish()
+            ctx.count("restyle_pairs")
+            if not any(k in b for k in ("alignment", "bg_color", "bg_image", "text_wrap", "text_inset", "first_indent", "left_indent", "right_indent")):
+                ctx.count("restyle_second_style_text_only")
+        except _Abort:
+            pass
+        finally:
+            ex.close()
+
+    run_given(ctx, strat, body, n, seed_, phases=(Phase.explicit, Phase.generate))
+
+
 READONLY_QUICK = ["test-bgcolour.numbers", "test-styles.numbers", "test-1.numbers", "test-formats.numbers", "test-extra-borders.numbers", "issue-51.numbers"]
 
 
@@ -863,6 +923,8 @@ def tasks(tier, seed):
 
     for name in (READONLY_QUICK if tier == "quick" else [n for n in _fx.SUPPORTED if n not in ("custom-format-stress.numbers", "test-6.numbers", "issue-67.numbers", "duration_112.numbers", "issue-35.numbers")]):
         t.append(("readonly", {"fixture": name}))
+    for k in range(4):
+        t.append(("restyle", {"n": 12 if tier == "quick" else 150, "seed": derive_seed(seed, "c15r", k)}))
     for k in range(8):
         t.append(("styles", {"n": 30 if tier == "quick" else 400, "steps": 14 if tier == "quick" else 20, "seed": derive_seed(seed, "c15s", k)}))
     for k in range(8):
@@ -880,6 +942,8 @@ def run_task(ctx, lane, **kw):
         image_name_collision(ctx)
     elif lane == "readonly":
         check_readonly(ctx, {"lane": "readonly", "fixture": kw["fixture"]})
+    elif lane == "restyle":
+        restyle_pairs(ctx, kw["n"], kw["seed"])
     elif lane == "borders":
         run_machine(ctx, make_border_machine(ctx, kw["merges"]), kw["n"], kw["steps"], kw["seed"], exec_factory=BorderExec)
     else:
